@@ -64,6 +64,8 @@ def norm_lark(t, named):
         return None
     if t[0] == 'tok':
         return ('tok', t[1] if t[1] in named else None, t[2])
+    if t[0] != 'tree':
+        return t            # ('cycle', label), ('obj', ...): kept as they are (never equal to a reference tree)
     return ('tree', t[1], tuple(norm_lark(c, named) for c in t[2]))
 
 
